@@ -43,6 +43,12 @@ func deleteAll(x *Exec) error {
 // directory left.  Blocks still held by objects whose freeing was
 // interrupted must come back once their inode numbers are reused.
 func reclaimCheck(x *Exec, mayBeInterrupted bool) (interrupted bool, err error) {
+	return reclaimCheckAllowed(x, mayBeInterrupted, nil)
+}
+
+// allowed: inode numbers that were free and half-freed when a free was interrupted (nothing has touched them since);
+// nil means any half-freed inode is tolerated when mayBeInterrupted.
+func reclaimCheckAllowed(x *Exec, mayBeInterrupted bool, allowed map[uint64]bool) (interrupted bool, err error) {
 	if err := deleteAll(x); err != nil {
 		return false, nil // a reply mismatch is another oracle's business; nothing to judge here
 	}
@@ -53,6 +59,14 @@ func reclaimCheck(x *Exec, mayBeInterrupted bool) (interrupted bool, err error) 
 	if r.HalfFreed > 0 && !mayBeInterrupted {
 		return false, x.errf("all objects are deleted and background freeing has finished (no freeing was ever interrupted), yet inode(s) %v are free but still hold blocks: %v",
 			r.HalfFreedInums, ferr)
+	}
+	if r.HalfFreed > 0 && allowed != nil {
+		for _, inum := range r.HalfFreedInums {
+			if !allowed[inum] {
+				return true, x.errf("every object has been removed (touched) since the interrupted free and background freeing has finished, yet inode %d still holds blocks that only the reuse of its number would release (half-freed inodes: %v; removed-while-freeing before the interruption: %v)",
+					inum, r.HalfFreedInums, allowed)
+			}
+		}
 	}
 	if r.HalfFreed > 0 {
 		interrupted = true
@@ -172,6 +186,16 @@ func TestC05Seq(t *testing.T) {
 			acts[k] = base[k]
 		}
 		ninterrupt, ndense := 0, 0
+		allowedHalf := map[uint64]bool{}
+		noteInterrupted := func() {
+			// free inodes that are half-freed right after the restart: removed objects whose free was cut short
+			x.call(func() {
+				rep := Fsck(x.S.N.VerifFsState(), FsckOpts{})
+				for _, i := range rep.HalfFreedFree {
+					allowedHalf[i] = true
+				}
+			})
+		}
 		allowInterrupt := pct(t, 35, "interruptions?")
 		acts["crashrestart"] = func(t *rapid.T) {
 			if !allowInterrupt {
@@ -181,6 +205,7 @@ func TestC05Seq(t *testing.T) {
 			if crashRestart(x) != nil {
 				cut = true
 			}
+			noteInterrupted()
 		}
 		acts["densebig"] = func(t *rapid.T) {
 			files := x.M.LiveKind(nt.NF3REG)
@@ -245,6 +270,7 @@ func TestC05Seq(t *testing.T) {
 			if err == nil && allowInterrupt && rapid.Bool().Draw(t, "interrupt") {
 				ninterrupt++
 				err = crashRestart(x)
+				noteInterrupted()
 			}
 			if err != nil {
 				cut = true
@@ -293,7 +319,7 @@ func TestC05Seq(t *testing.T) {
 		if _, err := quiescentFsck(x, FsckOpts{Exact: true, AllowHalfFreed: ninterrupt > 0, Allocators: true}); err != nil {
 			fail(t, fmt.Errorf("before deleting: %v", err))
 		}
-		interrupted, err := reclaimCheck(x, ninterrupt > 0)
+		interrupted, err := reclaimCheckAllowed(x, ninterrupt > 0, allowedHalf)
 		if err != nil {
 			fail(t, err)
 		}
